@@ -291,6 +291,62 @@ Proof.
     repeat split; assumption.
 Qed.
 
+(* ------------------------------------------------------------------ the bytes on disk *)
+(* WriteToFile from any state of the invariant: what ReadAt returns at the header address / the root node address recorded in
+   the header are exactly the encodings of the state, so the file's bytes decode under the specification decoder *)
+Lemma store_on_disk c w : PB.cfg_ok c -> PB.winv c w ->
+  let w1 := fst (MB.step c w MB.OStore) in
+  MB.read_at (MB.fil w1) (MB.next w + MB.node_size (MB.bt w)) (MB.hdr_size (MB.c_osz c))
+    = Some (MB.encode_header (MB.c_osz c) (MB.bt w1)) /\
+  MB.read_at (MB.fil w1) (MB.h_root (MB.header (MB.bt w1))) (length (MB.encode_leaf (MB.bt w1)))
+    = Some (MB.encode_leaf (MB.bt w1)) /\
+  MB.bt w1 = MB.with_root (MB.bt w) (MB.next w).
+Proof.
+  intros [Ho Hcap] I. pose proof I as (W & Hn & _).
+  pose proof W as (W1 & W2 & W3 & W4 & W5 & W6 & W7 & W8 & W9 & W10 & W11 & W12 & W13).
+  rewrite PB.store_ok. cbn [fst MB.fil MB.bt].
+  split; [|split; [|reflexivity]].
+  - rewrite <- (PB.encode_header_length (MB.c_osz c) (MB.with_root (MB.bt w) (MB.next w)) Ho).
+    apply PB.read_write_same.
+  - change (MB.encode_leaf (MB.with_root (MB.bt w) (MB.next w))) with (MB.encode_leaf (MB.bt w)).
+    change (MB.h_root (MB.header (MB.with_root (MB.bt w) (MB.next w)))) with (MB.next w).
+    assert (Hll : length (MB.encode_leaf (MB.bt w)) = (4 + 1 + 1 + length (MB.recs (MB.bt w)) * 11 + 4)%nat).
+    { rewrite PB.encode_leaf_length; rewrite W11; [reflexivity | exact W13]. }
+    pose proof (PB.cap_fits _ _ W3 W10) as Hfit.
+    rewrite PB.read_write_below.
+    + pose proof (PB.read_write_same (MB.fil w) (MB.next w) (MB.encode_leaf (MB.bt w))) as R.
+      apply PB.read_at_some in R. rewrite <- R. reflexivity.
+    + rewrite Hll. lia.
+    + rewrite PB.write_at_length. lia.
+Qed.
+
+Theorem spec_bt2_on_disk c w (root_rest : list N) : PB.cfg_ok c -> PB.winv c w -> hconst (MB.bt w) -> MB.next w < PB.lim c ->
+  let w1 := fst (MB.step c w MB.OStore) in
+  let s := MB.bt w1 in
+  exists hb lb,
+    MB.read_at (MB.fil w1) (MB.next w + MB.node_size (MB.bt w)) (MB.hdr_size (MB.c_osz c)) = Some hb /\
+    spec_dec_bt2hdr tolerant (MB.c_osz c) 8 hb =
+      Ok (spec_hdr (MB.header s), bt2_tags (MB.hdr_body (MB.c_osz c) (MB.header s)), []) /\
+    MB.read_at (MB.fil w1) (b2_root (spec_hdr (MB.header s))) (length (MB.encode_leaf s)) = Some lb /\
+    spec_dec_bt2leaf tolerant (b2_type (spec_hdr (MB.header s))) (N.to_nat (b2_nroot (spec_hdr (MB.header s)))) 11 lb =
+      Ok (map MB.enc_rec (MB.leaf_recs s), bt2_tags (MB.leaf_body 5 (MB.leaf_recs s))).
+Proof.
+  intros Hc I K Hlim w1 s.
+  destruct (store_on_disk c w Hc I) as (R1 & R2 & Es). fold w1 in R1, R2, Es. fold s in R1, R2, Es.
+  destruct I as (W & _). destruct Hc as [Ho Hcap].
+  destruct (st_wf_spec (MB.c_osz c) (MB.bt w) (MB.next w) W K Hlim) as (Hf & Hok & Hrs & Hty & T1 & T2 & T3 & T4 & T5).
+  rewrite <- Es in Hf, Hok.
+  assert (Hlr : MB.leaf_recs s = MB.leaf_recs (MB.bt w)) by (rewrite Es; reflexivity).
+  assert (Hlt : MB.leaf_type s = 5) by (rewrite Es; exact Hty).
+  exists (MB.encode_header (MB.c_osz c) s), (MB.encode_leaf s).
+  split; [exact R1|]. split; [now apply spec_bt2hdr_tolerant|]. split; [exact R2|].
+  assert (Hty' : b2_type (spec_hdr (MB.header s)) = 5) by (rewrite Es; exact T1).
+  assert (Hn' : N.to_nat (b2_nroot (spec_hdr (MB.header s))) = length (MB.leaf_recs s)).
+  { rewrite Es. cbn [spec_hdr b2_nroot MB.with_root MB.header MB.set_root MB.h_nroot MB.leaf_recs]. rewrite T4. apply Nat2N.id. }
+  rewrite Hty', Hn', <- Hlt, <- (app_nil_r (MB.encode_leaf s)).
+  apply spec_bt2leaf_tolerant. rewrite Hlr. exact Hrs.
+Qed.
+
 (* ------------------------------------------------------------------ witnesses: the hypotheses are satisfiable, the tags occur *)
 Definition ex_cfg : MB.cfg := MB.mkCfg MB.MOff 8 512.
 Definition ex_ops : list MB.op := [MB.OInsert [97; 98] 5; MB.OInsert [99] 7].
